@@ -26,6 +26,9 @@ mod backpressure;
 /// The downlink runtime task.
 pub mod downlink;
 mod timeout_coord;
+#[cfg(kani)]
+#[path = "/verif/kani/shim/collections.rs"]
+pub(crate) mod verif_shim;
 
 /// Ends of two independent channels (for example the input and output channels of an agent).
 type Io = (ByteWriter, ByteReader);
